@@ -13,6 +13,7 @@ def build(ctx):
 def bounded(ctx):
     from props import common
     common.suites(ctx, ['val', 'li', 'rand'], {'value', 'li'})
+    common.suites(ctx, ['hilo'], {'value', 'li', 'must-assemble'})
 
 
 def explanation(ctx):
